@@ -186,6 +186,7 @@ func init() {
 		partIntegrityStorm(c, a)
 		partStepThrough(c, a, []string{"compadd-vs-compadd"})
 		partSignedLatency(c, a) // (a refused request in the middle of a measurement changes nothing)
+		partReceiptAnswers(c, a)
 		return a.finish(c)
 	}
 	registry["C05"] = func(c *check.Ctx) int {
@@ -197,6 +198,7 @@ func init() {
 				return marks(s, "foreign:entity_del", "foreign:pose", "foreign:asset_add") && after > 0
 			})
 		partIntegrityStorm(c, a)
+		partEntityAddStorm(c, a)
 		return a.finish(c)
 	}
 	registry["C12"] = func(c *check.Ctx) int {
